@@ -19,7 +19,7 @@ from .common import make_rodded, set_int_params, set_temps, make_unrodded, patch
 from pvc import core, normal
 from pvc.core import Sym
 
-MODULES = common.RR_MODULES + common.UR_MODULES + ['dassh.core', 'dassh.assembly']
+MODULES = common.RR_MODULES + common.UR_MODULES + ['dassh.core', 'dassh.assembly', 'dassh.reactor']
 PROPERTY = 'C04'
 LEAN_LEMMAS = ['convex_lower', 'convex_upper', 'diag_nonneg']        # /verif/lean/Ghost.lean, checked in the thorough tier
 FUNCTIONS = [
@@ -649,6 +649,12 @@ def configs(tier):
     out.append((aggregate, dict()))
     out.append((aggregate, dict(n_bypass=2, flowing=True, adiabatic=True)))
     out.append((aggregate, dict(n_bypass=1, flowing=False)))
+    # the step the sweep actually takes: Reactor._setup_overall_axial_mesh_req reduces the per-assembly limits to
+    # one requirement that is <= every limit (rounded DOWN to the micrometre) - the contract C05 proves, on which
+    # "the selected step keeps every weight non-negative" rests as much as on the limits themselves
+    from . import c05
+    out.append((c05.mesh_req, dict(user='none')))
+    out.append((c05.mesh_req, dict(user='given')))
     if tier == 'thorough':
         out.append((gap_flow, dict(present=(1,) * 7, types='abUcabU')))
         out.append((interior, dict(n_ring=5)))
